@@ -934,8 +934,8 @@ func build(tier string) []*vkit.Scenario {
 				p = 2
 			case len(l) == 3:
 				p = 1
-			case nD == 0:
-				p = 1
+			case nD == 0 && nZ == 0 && !usesSocket(l):
+				p = 1 // length 4, only read/write deadline sets, clears and Close
 			default:
 				p = 0
 			}
